@@ -95,6 +95,8 @@ struct InjItem { int skip; std::string code; };
 static std::map<std::string, std::deque<InjItem>> g_inj;
 static std::map<std::string, long> g_fire, g_injected;
 static std::atomic<long long> g_clockOffsetNs{0};
+static std::atomic<bool> g_dnsGaveUp{false};  // set by the close callback that reports the engine's DNS timeout (releases a SLOW lookup)
+static thread_local int t_sslForceErr = 0;      // an injected SSL_read/SSL_write result: the next SSL_get_error says this
 
 static void ans(const std::string &a) { if (t_in || g_gaiCtx.load()) g_ans.push_back(a); }
 
@@ -202,9 +204,20 @@ extern "C" int getpeername(int fd, struct sockaddr *a, socklen_t *l)
   std::string c;
   if (takeInj("getpeername", c))
   {
-    errno = errnoOf(c);
-    ans((refusedClass(errno) || errno == ETIMEDOUT) ? "refused" : "again");
-    return -1;
+    int ie = errnoOf(c);
+    bool transient = !(refusedClass(ie) || ie == ETIMEDOUT);
+    // "not connected yet" is only injected while the kernel could say so: a socket that already has payload (or a FIN) to read IS
+    // connected.  Such an injection is dropped - the harness never fabricates `payload on a socket whose connect is pending`
+    // (the environment contract of T3c); whatever data-before-connect remains is the engine's own doing.
+    static auto realRecv = realFn<ssize_t (*)(int, void *, size_t, int)>("recv");
+    char pk;
+    bool readable = transient && realRecv(fd, &pk, 1, MSG_PEEK | MSG_DONTWAIT) >= 0;
+    if (!readable)
+    {
+      errno = ie;
+      ans(transient ? "again" : "refused");
+      return -1;
+    }
   }
   int r = real(fd, a, l);
   int e = errno;
@@ -302,7 +315,10 @@ extern "C" int getaddrinfo(const char *node, const char *svc, const struct addri
     if (c == "SLOW")
     {
       ans("timeout");
-      std::this_thread::sleep_for(milliseconds(2300)); // > the 2 s DNS wait of TcpEngine::doConnect
+      // held until the engine has reported its own DNS timeout (close callback `dnsTimeout`); 10 s cap = machinery failure
+      g_dnsGaveUp.store(false);
+      for (int i = 0; i < 10000 && !g_dnsGaveUp.load(); ++i) std::this_thread::sleep_for(milliseconds(1));
+      if (!g_dnsGaveUp.load()) { std::fprintf(stderr, "c02: the engine never gave up on a held DNS lookup\n"); std::_Exit(2); }
       int r = real(node, svc, hints, res);
       return r; // the engine has already given up: answer `timeout` is logged by the harness
     }
@@ -313,8 +329,10 @@ extern "C" int getaddrinfo(const char *node, const char *svc, const struct addri
   if (r == 0 && res && *res)
   {
     int n = 0;
-    for (struct addrinfo *ai = *res; ai; ai = ai->ai_next) ++n;
+    bool v4 = false;
+    for (struct addrinfo *ai = *res; ai; ai = ai->ai_next) { ++n; v4 = v4 || ai->ai_family == AF_INET; }
     ans("ad" + std::to_string(n));
+    if (g_udpMode && !v4) ans("nomatch"); // every listener of the harness is IPv4: connectViaListener finds no usable address
   }
   else ans("fail");
   return r;
@@ -355,6 +373,21 @@ extern "C" SSL *SSL_new(SSL_CTX *ctx)
   if (t_in) ans(s ? "ok" : "fail");
   return s;
 }
+extern "C" int SSL_set1_host(SSL *ssl, const char *name)
+{
+  static auto real = realFn<int (*)(SSL *, const char *)>("SSL_set1_host");
+  std::string c;
+  if (takeInj("SSL_set1_host", c)) { ans("fail"); return 0; }
+  int r = real(ssl, name);
+  if (t_in) ans(r == 1 ? "ok" : "fail");
+  return r;
+}
+extern "C" int SSL_get_error(const SSL *ssl, int ret)
+{
+  static auto real = realFn<int (*)(const SSL *, int)>("SSL_get_error");
+  if (t_sslForceErr) { int e = t_sslForceErr; t_sslForceErr = 0; return e; }
+  return real(ssl, ret);
+}
 extern "C" int SSL_do_handshake(SSL *ssl)
 {
   static auto real = realFn<int (*)(SSL *)>("SSL_do_handshake");
@@ -375,6 +408,8 @@ extern "C" int SSL_read(SSL *ssl, void *b, int n)
 {
   static auto real = realFn<int (*)(SSL *, void *, int)>("SSL_read");
   static auto realErr = realFn<int (*)(const SSL *, int)>("SSL_get_error");
+  std::string c;
+  if (takeInj("SSL_read", c)) { ans("fail"); t_sslForceErr = SSL_ERROR_SSL; return -1; }
   int r = real(ssl, b, n);
   if (t_in)
   {
@@ -391,6 +426,12 @@ extern "C" int SSL_write(SSL *ssl, const void *b, int n)
 {
   static auto real = realFn<int (*)(SSL *, const void *, int)>("SSL_write");
   static auto realErr = realFn<int (*)(const SSL *, int)>("SSL_get_error");
+  std::string c;
+  if (takeInj("SSL_write", c))
+  {
+    if (c == "EAGAIN") { ans("again"); t_sslForceErr = SSL_ERROR_WANT_WRITE; return -1; } // nothing was handed to OpenSSL: a later retry is a fresh write
+    ans("fail"); t_sslForceErr = SSL_ERROR_SSL; return -1;
+  }
   int r = real(ssl, b, n);
   if (t_in)
   {
@@ -494,6 +535,7 @@ struct Stepped
   std::vector<std::uint16_t> lports;
   std::vector<bool> ltls;
   std::vector<SessionId> known;        // ids the application has seen, in order (connect() ok / accept)
+  std::set<SessionId> announced;       // ids with an accept/connect callback
   std::vector<std::string> cbs;        // callbacks of the current record
   std::vector<std::string> out;        // finished output lines
   std::vector<std::string> deferred;   // nested API lines to print after the current record
@@ -601,7 +643,8 @@ static void doApi(const std::string &action, const std::string &arg)
   {
     // arg: P<k>[t] | E<k>[t] (the engine's own listener k) | closed | name | nameP<k> ; trailing 't' = TLS
     bool tls = !arg.empty() && arg.back() == 't';
-    std::string a = tls ? arg.substr(0, arg.size() - 1) : arg;
+    bool tlsSrv = !arg.empty() && arg.back() == 's' && !S.udp; // TlsMode::Server on connect(): refused by doConnect
+    std::string a = (tls || tlsSrv) ? arg.substr(0, arg.size() - 1) : arg;
     std::string host = "127.0.0.1";
     std::uint16_t port = g_closedPort;
     bool named = false;
@@ -615,10 +658,10 @@ static void doApi(const std::string &action, const std::string &arg)
       if (!v.empty()) port = v[k % v.size()].port;
     }
     if (S.udp) tls = false; // UdpEngine::connect rejects TLS before any id is allocated: not scripted
-    auto r = S.eng()->connect(host, port, tls ? TlsMode::Client : TlsMode::None);
+    auto r = S.eng()->connect(host, port, tlsSrv ? TlsMode::Server : tls ? TlsMode::Client : TlsMode::None);
     // a failed connect() does not reveal the burnt id: the model reports `R?:0`
     if (r.isOk()) S.known.push_back(r.value());
-    apiLine(std::string("apiconnect ") + (tls ? "1 " : "0 ") + (named ? "1" : "0"), r.isOk() ? "R" + std::to_string(r.value()) + ":1" : std::string("R?:0"));
+    apiLine(std::string("apiconnect ") + (tlsSrv ? "2 " : tls ? "1 " : "0 ") + (named ? "1" : "0"), r.isOk() ? "R" + std::to_string(r.value()) + ":1" : std::string("R?:0"));
   }
   else if (action == "via")
   {
@@ -634,7 +677,8 @@ static void doApi(const std::string &action, const std::string &arg)
     sa.sin_port = htons(port);
     sa.sin_addr.s_addr = htonl(INADDR_LOOPBACK);
     int key = keyOfAddr(reinterpret_cast<sockaddr *>(&sa));
-    auto r = S.eng()->connectViaListener(lid, "127.0.0.1", port);
+    bool v6 = pa == "v6"; // an IPv6-only remote through an IPv4 listener: address family mismatch
+    auto r = S.eng()->connectViaListener(lid, v6 ? "::1" : "127.0.0.1", port);
     if (r.isOk()) S.known.push_back(r.value());
     apiLine("apivia " + std::to_string(lid) + " " + std::to_string(key), r.isOk() ? "R" + std::to_string(r.value()) + ":1" : std::string("R?:0"));
   }
@@ -676,6 +720,7 @@ static void onCallback(char kind, SessionId sid, const std::string &extra)
 {
   S.cbs.push_back(std::string(1, kind) + std::to_string(sid) + extra);
   if (kind == 'A') S.known.push_back(sid);
+  if (kind == 'A' || kind == 'N') S.announced.insert(sid);
   // nested application actions (run inside the callback, i.e. on the "I/O thread", re-entering the public API)
   for (std::size_t i = 0; i < S.nested.size(); ++i)
   {
@@ -697,7 +742,11 @@ static detail::EngineBase::Callbacks steppedCallbacks()
   c.onAccept = [](SessionId s, const TransportAddress &) { onCallback('A', s, ""); };
   c.onConnect = [](SessionId s, const TransportAddress &) { onCallback('N', s, ""); };
   c.onData = [](SessionId s, iora::core::BufferView, std::chrono::steady_clock::time_point) { onCallback('D', s, ""); };
-  c.onClose = [](SessionId s, const TransportErrorInfo &e) { onCallback('K', s, std::string(":") + codeName(e.code) + "/" + msgClass(e.message)); };
+  c.onClose = [](SessionId s, const TransportErrorInfo &e) {
+    std::string cls = msgClass(e.message);
+    if (cls == "dnsTimeout") g_dnsGaveUp.store(true); // releases the held lookup (getaddrinfo SLOW)
+    onCallback('K', s, std::string(":") + codeName(e.code) + "/" + cls);
+  };
   c.onError = [](TransportError, const std::string &) {};
   return c;
 }
@@ -811,6 +860,14 @@ template <typename E> static void steppedEvent(E &e, SessionId sid, std::uint32_
   {
     if (it->second->role != Role::ClientConnected) return; // server-peer sessions share the listener fd
   }
+  if constexpr (std::is_same<E, HTcp>::value)
+  {
+    // A synthetic event never fabricates what a kernel cannot report: readable-without-writable on a socket whose connect
+    // callback has not been delivered (the engine registers EPOLLIN|EPOLLOUT for it).  Only real epoll_wait results (`poll`)
+    // can carry such an event - and then it is the engine's interest mask that let it through (monitor: data before connect).
+    if ((events & EPOLLIN) && !(events & (EPOLLOUT | EPOLLHUP | EPOLLERR)) && !S.announced.count(sid) &&
+        it->second->tlsMode == TlsMode::None) return;
+  }
   std::string m = std::string((events & EPOLLIN) ? "1" : "0") + " " + ((events & EPOLLOUT) ? "1" : "0") + " " + ((events & (EPOLLHUP | EPOLLERR)) ? "1" : "0");
   beginRec("sess", "sess " + std::to_string(sid) + " " + m);
   t_in = true; e.handleFdEvent(fd, events); t_in = false;
@@ -920,14 +977,16 @@ static std::string steppedOp(const std::vector<std::string> &t)
       cfg.serverTls.keyFile = g_certDir + "/test_tls_key.pem";
       cfg.clientTls.enabled = true;
       cfg.clientTls.defaultMode = TlsMode::Client;
-      cfg.clientTls.verifyPeer = false;
+      cfg.clientTls.verifyPeer = kv(t, "vp", "0") == "1"; // with vp=1 a connect BY NAME binds the name (SSL_set1_host)
+      if (cfg.clientTls.verifyPeer) cfg.clientTls.caFile = g_certDir + "/test_tls_cert.pem";
     }
+    bool vp = tls && !S.udp && kv(t, "vp", "0") == "1";
     std::size_t nl = std::strtoul(kv(t, "nl", "1").c_str(), nullptr, 10);
     std::size_t ntl = std::strtoul(kv(t, "ntl", "0").c_str(), nullptr, 10);
     g_closedPort = findClosedPort(S.udp);
     std::string line = std::string("reset ") + t[0] + " " + (tls && !S.udp ? "1 1 " : "0 0 ") +
                        ((!S.udp && cfg.handshakeTimeout.count() > 0) ? "1 " : "0 ") + std::to_string(cfg.maxWriteQueue) + " " +
-                       (cfg.closeOnBackpressure ? "1 " : "0 ") + std::to_string(cfg.maxSessions);
+                       (cfg.closeOnBackpressure ? "1 " : "0 ") + std::to_string(cfg.maxSessions) + (vp ? " 1" : " 0");
     if (S.udp) { S.udpE = std::make_unique<UdpEngine>(cfg); S.udpE->setCallbacks(steppedCallbacks()); }
     else { S.tcp = std::make_unique<HTcp>(cfg); S.tcp->inlineHs = cfg.handshakeTimeout.count() > 0; S.tcp->setCallbacks(steppedCallbacks()); }
     S.out.push_back(line + " => -|0,0,0,0");
